@@ -13,7 +13,7 @@ from props.C07 import gen_sel, _py_sel
 
 REQUIRED_THEOREMS = ['Usid.C20.read_frame', 'Usid.C20.history_independent_reads', 'Usid.C20.write_refused',
                      'Usid.C20.ro_never_changes', 'Usid.C20.rw_write_changes', 'Usid.C20.table_functional']
-RULE = ('[also: unit values queried for an ancillary pair whose indices do not start at 0] [also: a Process merely CONSTRUCTED on a writable file whose earlier results carry two disagreeing progress records] [also: a process started on a read-only file that already holds its complete results] [also: every file holds a results group whose source reference is stale] [also: every file holds a dataset that is a Main dataset but for the labels / units of one ancillary] [also: a TARGET group in another file - results group, process, empty dataset written to it and look-ups in it - under every combination of open modes of the source and target files] generator files (a Main dataset with 1-3 dimensions per side, its ancillaries, 0-2 groups of earlier results '
+RULE = ('[also: parameter comparison with a nested dictionary] [also: unit values queried for an ancillary pair whose indices do not start at 0] [also: a Process merely CONSTRUCTED on a writable file whose earlier results carry two disagreeing progress records] [also: a process started on a read-only file that already holds its complete results] [also: every file holds a results group whose source reference is stale] [also: every file holds a dataset that is a Main dataset but for the labels / units of one ancillary] [also: a TARGET group in another file - results group, process, empty dataset written to it and look-ups in it - under every combination of open modes of the source and target files] generator files (a Main dataset with 1-3 dimensions per side, its ancillaries, 0-2 groups of earlier results '
         'holding their own Main dataset, a decoy group, plain datasets) opened "r" and "r+"; random sequences (<= 8 '
         'quick, <= 20 thorough) of the 24 read-side operations with generated arguments; after EVERY operation the '
         'SHA-256 of the file on disk (read-only) and a canonical dump of every dataset and attribute through the open '
@@ -60,7 +60,9 @@ def _gen_op(rng, ds, name=None):
         op['parent'] = rng.random() < 0.4          # the optional parent-group keyword
         op['target'] = rng.choice([None, None, 'Res', 'absent'])
     elif name == 'check_for_matching_attrs':
-        op['parms'] = rng.choice([dict(PARMS), {'p': 2}, {'zz': 3}, {}])
+        op['parms'] = rng.choice([dict(PARMS), {'p': 2}, {'zz': 3}, {},
+                                  # a nested dictionary (stored by the attribute writer as a sub-group of that name)
+                                  {'p': 1, 'window': {'size': 5}}, {'p': 1, 'window': {'size': 5}}])
     elif name == 'get_n_dim_form':
         op['lazy'] = rng.random() < 0.5
         op['as_scalar'] = rng.random() < 0.3
